@@ -53,7 +53,9 @@ func H_C16_WrkUpdate() {
 	p2 := anyWrkParamsFull("q")
 	snap := we.MS.Snapshot()
 	srv := wrkkeeper.NewMsgServerImpl(we.K)
-	_, err := srv.UpdateParams(sdk.WrapSDKContext(we.Ctx), &wrktypes.MsgUpdateParams{Authority: auth, Params: p2})
+	umsg := &wrktypes.MsgUpdateParams{Authority: auth, Params: p2}
+	rt.Assert("C16.wrk-update-stateless-check-is-params-validity", rt.Iff(umsg.ValidateBasic() == nil, specWrkParams(p2)))
+	_, err := srv.UpdateParams(sdk.WrapSDKContext(we.Ctx), umsg)
 	rt.Assert("C16.wrk-update-iff-authority-and-valid", rt.Iff(err == nil, rt.And(isAuth, specWrkParams(p2))))
 	rt.Assert("C13.wrk-update-only-authority", rt.Implies(err == nil, isAuth))
 	if err != nil {
@@ -119,7 +121,9 @@ func H_C16_BeaconUpdate() {
 	p2 := anyBeaconParamsFull("q")
 	snap := be.MS.Snapshot()
 	srv := beaconkeeper.NewMsgServerImpl(be.K)
-	_, err := srv.UpdateParams(sdk.WrapSDKContext(be.Ctx), &beacontypes.MsgUpdateParams{Authority: auth, Params: p2})
+	umsg := &beacontypes.MsgUpdateParams{Authority: auth, Params: p2}
+	rt.Assert("C16.beacon-update-stateless-check-is-params-validity", rt.Iff(umsg.ValidateBasic() == nil, specBeaconParams(p2)))
+	_, err := srv.UpdateParams(sdk.WrapSDKContext(be.Ctx), umsg)
 	rt.Assert("C16.beacon-update-iff-authority-and-valid", rt.Iff(err == nil, rt.And(isAuth, specBeaconParams(p2))))
 	rt.Assert("C13.beacon-update-only-authority", rt.Implies(err == nil, isAuth))
 	if err != nil {
@@ -179,7 +183,9 @@ func H_C16_StreamUpdate() {
 	valid := rt.And(rt.IntLe(sdk.ZeroInt(), raw2), rt.IntLe(raw2, sdk.NewIntFromUint64(1000000000000000000)))
 	snap := se.MS.Snapshot()
 	srv := streamkeeper.NewMsgServerImpl(se.K)
-	_, err := srv.UpdateParams(sdk.WrapSDKContext(se.Ctx), &streamtypes.MsgUpdateParams{Authority: auth, Params: streamtypes.Params{ValidatorFee: fee2}})
+	umsg := &streamtypes.MsgUpdateParams{Authority: auth, Params: streamtypes.Params{ValidatorFee: fee2}}
+	rt.Assert("C16.stream-update-stateless-check-is-params-validity", rt.Iff(umsg.ValidateBasic() == nil, valid))
+	_, err := srv.UpdateParams(sdk.WrapSDKContext(se.Ctx), umsg)
 	rt.Assert("C16.stream-update-iff-authority-and-valid", rt.Iff(err == nil, rt.And(isAuth, valid)))
 	rt.Assert("C13.stream-update-only-authority", rt.Implies(err == nil, isAuth))
 	if err != nil {
